@@ -173,6 +173,43 @@ def work_affine(p):
     return acc.result()
 
 
+FAR = (1.0, (7.0, -8.0, 9.0))
+
+
+def far_boxes():
+    _, boxes = lattices("quick")
+    return [j for j in range(len(boxes)) if j % 4 == 0 or j >= 216]
+
+
+def work_far(p):
+    """The quick lattice carried to the far corner of the stated range by the integer translation (7,-8,9): every coordinate
+    stays a small dyadic rational, intersection is translation-invariant, so the exact answer is the lattice's own - also for
+    boundary contact.  All segments x every fourth box plus the 26 boxes with a side of length 3.  (Coordinates beyond 2*pi
+    in magnitude are where anything that treats a pose's six numbers alike - wrapping, clamping - would bite.)"""
+    w = world("quick", FAR)
+    acc = lattice.Acc()
+    n = len(w.pts)
+    pl = w.fresh_planner()
+    sel = far_boxes()
+    for si in range(p["lo"], p["hi"]):
+        ia, ib = divmod(si, n)
+        closed, _ = segbox_int_vec(w.pts[ia], w.pts[ib], w.LO, w.HI)
+        for j in sel:
+            pl.obstructions = [w.obst[j] if (si + j) % 3 else w.obst_flipped[j]]
+            try:
+                g = pl.obstruction(w.nodes[ia], w.nodes[ib])
+            except Exception as e:
+                acc.violation("raised", {"a": w.pts[ia], "b": w.pts[ib], "box": w.boxes[j], "mode": "far"}, repr(e))
+                break
+            if bool(g) != bool(closed[j]):
+                acc.violation("obstruction_vs_exact", {"a": w.pts[ia], "b": w.pts[ib], "box": list(w.boxes[j]), "mode": "far"},
+                              {"impl": bool(g), "exact": bool(closed[j])})
+        acc.evals += len(sel)
+        if ia != ib:
+            acc.nontrivial_count += len(sel)
+    return acc.result()
+
+
 def work_sets(p):
     """Sets of two registered boxes: answer must be the OR over the boxes, in either registration order."""
     w = world("quick")
@@ -277,13 +314,15 @@ def run(ctx):
         m1 = lattice.run(ctx, pool, MOD, "work_exact", nseg, nshards=pool.workers * (24 if ctx.tier == "thorough" else 3), part="lattice")
         qp, _ = lattices("quick")
         m2 = lattice.run(ctx, pool, MOD, "work_affine", len(qp) ** 2, part="affine")
+        m5 = lattice.run(ctx, pool, MOD, "work_far", len(qp) ** 2, part="far")
         segs = list(range(0, len(qp) ** 2, 7))
         m3 = lattice.run(ctx, pool, MOD, "work_sets", len(segs), extra={"segs": segs}, part="sets")
         segs2 = list(range(3, len(qp) ** 2, 97 if ctx.tier == "quick" else 23))
         m4 = lattice.run(ctx, pool, MOD, "work_reuse", len(segs2), extra={"segs": segs2}, part="reuse")
-    lattice.fill(ctx, [("lattice", m1), ("affine", m2), ("sets", m3), ("reuse", m4)],
+    lattice.fill(ctx, [("lattice", m1), ("affine", m2), ("far", m5), ("sets", m3), ("reuse", m4)],
                  "all ordered pairs of integer lattice points x all integer boxes lo<=hi (every pair distinct by construction; "
                  "non-trivial = segment of non-zero length); affine image compared where the exact answer has no boundary contact; "
+                 "the quick lattice translated by (7,-8,9) (exact, every fourth box + the 26 odd-sided ones, either corner order); "
                  "two-box sets over a 24-box sub-palette on every 7th segment; planner-reuse histories (register X, query, change the set to Y "
                  "in 4 public ways, query) over all ordered pairs of a 12-box sub-palette on every 97th (quick) / 23rd (thorough) segment",
                  {"endpoints": len(pts), "boxes": len(boxes), "segments": nseg})
@@ -329,7 +368,7 @@ def _replay_fresh(rec):
     from basic_robotics.general import tm
     from basic_robotics.path_planning.pathplanner import RRTStar, PathNode
     c = rec["case"]
-    s, off = AFFINE if c.get("mode") == "affine" else (1.0, (0, 0, 0))
+    s, off = AFFINE if c.get("mode") == "affine" else FAR if c.get("mode") == "far" else (1.0, (0, 0, 0))
     pl = RRTStar(tm())
     bxs = c["boxes"] if "boxes" in c else [c.get("registered_corners") or c["box"]]
     for lo, hi in bxs:
